@@ -8,6 +8,7 @@ pub mod c01;
 pub mod c02;
 pub mod c04;
 pub mod c05;
+pub mod c06;
 pub mod c10;
 pub mod c11;
 pub mod c12;
@@ -32,6 +33,7 @@ pub fn run(id: &str, tier: Tier, seed: u64, known: &Known) -> PropRun {
         "C02" => c02::run(tier, seed, known),
         "C04" => c04::run(tier, seed, known),
         "C05" => c05::run(tier, seed, known),
+        "C06" => c06::run(tier, seed, known),
         "C10" => c10::run(tier, seed, known),
         "C11" => c11::run(tier, seed, known),
         "C12" => c12::run(tier, seed, known),
@@ -52,6 +54,7 @@ pub fn replay(id: &str, part: &str, bytes: &[u8], case: &Value) -> Verdict {
         "C02" => c02::replay(part, bytes, case, &mut st),
         "C04" => c04::replay(part, bytes, case, &mut st),
         "C05" => c05::replay(part, bytes, case, &mut st),
+        "C06" => c06::replay(part, bytes, case, &mut st),
         "C10" => c10::replay(part, bytes, case, &mut st),
         "C11" => c11::replay(part, bytes, case, &mut st),
         "C12" => c12::replay(part, bytes, case, &mut st),
